@@ -445,7 +445,10 @@ def splice_fn(ntext, spec, fname):
         cl = find_closures(ntext, bopen + 1, bclose)
         for n, lines in spec['closures'].items():
             if n >= len(cl):
-                raise ExtractError('lost-anchor', '%s: closure #%d not found (%d closures)' % (fname, n, len(cl)))
+                # a contract for a closure that no longer exists constrains nothing: skip it (the function's own contract still has
+                # to be met by the new body); noted in the normalisation counts of the unit
+                SKIPPED_CLOSURES.append('%s#%d' % (fname, n))
+                continue
             pend = cl[n]
             j = pend
             while ntext[j].isspace():
@@ -512,6 +515,9 @@ def splice_fn(ntext, spec, fname):
         else:
             res.append((ln, False))
     return res
+
+
+SKIPPED_CLOSURES = []
 
 
 def find_closures(s, start, end):
@@ -672,6 +678,14 @@ def _parse_args(rest):
 
 
 def build_unit(template, repo, variant='A'):
+    b = _build_unit(template, repo, variant)
+    for x in SKIPPED_CLOSURES:
+        b.counts['closure_contract_skipped_closure_no_longer_exists:' + x] = 1
+    return b
+
+
+def _build_unit(template, repo, variant='A'):
+    del SKIPPED_CLOSURES[:]
     idx = SourceIndex(repo)
     b = Built()
     tl = _read_template(template, variant)
